@@ -11,7 +11,7 @@ UNIT = dict(
         "Chaos::poll_ready@Service": dict(),
         "Chaos::call@Service": dict(rules=[
             ("R4",), ("R3",),
-            ("sub", "ghost-inject", r"proof \{ tr\.future_created\(\); \}", "proof { assert(tr.draws == 0);   // #all_draws_of_a_request_are_taken_together_inside_its_future [C19]\n tr.future_created(); }", 1),
+            ("sub", "ghost-inject", r"proof \{ tr\.future_created\(\); \}", "proof { tr.draws_at_future = tr.draws; tr.future_created(); }", 1),
             ("inject", None, "start", "broadcast use chaos_float_axioms;"),
             ("sub", "R8-lock", r"\brng\.lock\(\)\.unwrap\(\)", "vx_lock(&rng)", -1),
             ("sub", "R14-float", r"let mut error_roll: f64 = 1\.0;", "let mut error_roll: f64 = vx_one();", 1),
